@@ -334,7 +334,8 @@ def check(rep):
     rep.cov['distinct_nontrivial'] = len(set(c for c in cases if nontrivial(c)))
     n = len(cases)
     rep.cov['samples'] = [shrink_case(c) for c in (cases[0:3] + cases[n // 3:n // 3 + 2] + cases[-3000:-2998] + cases[-2:])]
-    rep.cov['exhaustive'] = ('host positions of %s; everything else sampled' % stats['exhaustive_netmasks'])
+    rep.cov['exhaustive'] = False
+    rep.cov['exhaustive_part'] = ('host positions of %s; everything else sampled' % stats['exhaustive_netmasks'])
     run_all(rep, ctx, cases)
     if not rep.violations:
         ctx.report_broken()
